@@ -1,4 +1,5 @@
 import BoolFn.Proofs.BddQuant
+import BoolFn.Proofs.BddOps
 import BoolFn.Proofs.QuantET
 /-! # C07 — The Boolean derivative marks where flipping the variables changes the output
 
@@ -89,6 +90,22 @@ theorem bdd_derivative (vs : List α) (hnd : vs.Nodup) (b : Bdd α) (hb : b.WF) 
       ∀ ρ, b'.den ρ = nested (· != ·) Bdd.den vs b ρ := by
   obtain ⟨b', h1, h2, h3, h4⟩ := Bdd.derivative_den vs hnd b hb
   exact ⟨b', h1, h2, by intro y; rw [h3]; simp, h4⟩
+/-- **in any order**: differentiating by the same variables in a different order gives the same diagram -/
+theorem order_independent_bdd (vs vs' : List α) (hp : vs.Perm vs') (hnd : vs.Nodup) (b : Bdd α) (hb : b.WF)
+    (c c' : Bdd α) (h1 : Bdd.derivative vs b = .ok c) (h2 : Bdd.derivative vs' b = .ok c') : c = c' := by
+  obtain ⟨d, hd, hdw, hdi, hdd⟩ := Bdd.derivative_den vs hnd b hb
+  obtain ⟨d', hd', hdw', hdi', hdd'⟩ := Bdd.derivative_den vs' (hp.nodup hnd) b hb
+  rw [h1] at hd; cases hd
+  rw [h2] at hd'; cases hd'
+  have hfil : b.inputs.filter (fun x => !(vs.contains x)) = b.inputs.filter (fun x => !(vs'.contains x)) := by
+    apply List.filter_congr
+    intro x _
+    simp only [List.contains_eq_mem, hp.mem_iff]
+  apply Bdd.eq_of_den _ _ hdw hdw' (by rw [hdi, hdi', hfil])
+  intro ρ
+  rw [hdd, hdd']
+  exact nested_perm _ _ medial_xor hp hnd b ρ
+
 /-- the three representations of one function have the same derivative: the right-hand side is the
     same nested expansion of the common denotation -/
 theorem representations_agree (vs : List α) (e : Expr α) (b : Bdd α) (hsame : ∀ ρ, b.den ρ = e.den ρ) (ρ : α → Bool) :
